@@ -10,6 +10,10 @@ def Two(mode: int, x: int = 0):
     R.rec("Two", mode, x)
     if mode == 0:
         raise ValueError("boom-%d" % x)
+    if mode == 12:
+        raise SystemExit(3)                 # e.g. sys.exit(3) somewhere below the task function
+    if mode == 13:
+        raise KeyboardInterrupt()
     return {
         2: 5, 3: (), 4: (1,), 5: (x, 2), 6: (1, 2, 3),
         7: {}, 8: {"a": x}, 9: {"b": 2}, 10: {"a": x, "b": 2}, 11: {"a": x, "b": 2, "c": 3},
@@ -60,9 +64,16 @@ def Flaky(x: int, tag: int = 0) -> int:
     if R.FLAGS.get("chdir"):
         import os
         os.chdir(R.FLAGS["chdir"])       # a body that changes the working directory itself
-    if R.FLAGS.get("fail"):
+    if R.FLAGS.get("fail") or R.FLAGS.get("fail_x") == x:
         raise ValueError("Flaky failed")
     return x * 10 + tag
+
+
+@workflow.define
+def FlakySplit(xs: list[int]) -> list[int]:
+    """one split node over xs; elements fail through vf.rec.FLAGS (not part of the inputs)"""
+    s = workflow.add(Flaky(tag=1).split(x=xs), name="s")
+    return s.out
 
 
 @workflow.define
